@@ -21,31 +21,42 @@ COQ_TARGETS = ["Props/C11.vo", "Model/C11Check.vo", "Model/Harness.vo"]
 THEOREM_FILES = ["Props/C11.v"]
 COQ_IMPORTS = ("From Coq Require Import List ZArith Bool QArith Qcanon.\n"
                "From PV Require Import Base.Index Np.Array Model.Sparse Model.Repr Model.Harness Model.C11Check.\n")
-RULE = ("count tensors <= 4x3x2 (2- to 4-way; random fill, an emptied slice, all-zero fibres, singleton modes), dense and sparse, ranks 1-3, "
-        "integer guesses optionally with an all-zero row, algorithms mu/pdnr/pqnr x option sets (maxinneriters, precompinds, inexact, "
-        "lbfgsMem, kappa), maxiters 1..3 run from the same guess; op overspec: over-specified rank on rank-1 / empty-slice counts, "
-        "fractional guesses, pdnr+pqnr, maxiters 1 and 2, dense AND sparse holder (dead components); op zero_row: MU from a guess with an "
-        "all-zero row over observed counts (objective -inf, infinities compared explicitly); op phi_sp: calculate_pi/calculate_phi on "
-        "sparse and dense holders vs the Qc models; op mu_model: the executable Coq MU model run side by side; data, guess and aliasing "
-        "of the result observed for purity; non-trivial = data not all zero; distinct = distinct (op,args)")
-CORRESPONDENCE_ONLY = ["Newton / L-BFGS search directions and the line search (oracles): only non-negativity of the projected step is proved",
+RULE = ("count tensors <= 4x3x2 (2- to 4-way; random fill, an emptied slice, emptied slices in several modes, all-zero fibres, all-zero data, "
+        "singleton modes), dense and sparse, ranks 1-3, integer / fractional guesses optionally with an all-zero row, fractional weights, "
+        "guess factors F-ordered, C-ordered or strided views, dense data from a C-ordered array; algorithms mu/pdnr/pqnr x option sets "
+        "(maxinneriters 1..10, precompinds, inexact, lbfgsMem, mu0, epsActive, kappa 0..1, kappatol 0..10, printitn/printinneritn > 0), "
+        "maxiters 1..3 run from the same guess; op sp_degenerate: sparse holders with no stored entry / exactly one / explicitly stored "
+        "zeros (plain constructor or arising from (S+T)-T); op rerun: a second call starting from the model object the first call "
+        "returned (both holders); op ll_sp: tt_loglikelihood called directly on a sparse holder with an un-normalised model; op overspec: "
+        "over-specified rank on rank-1 / empty-slice counts, fractional guesses, pdnr+pqnr, maxiters 1 and 2, dense AND sparse holder "
+        "(dead components); op zero_row: MU from a guess with an all-zero row over observed counts (objective -inf, infinities compared "
+        "explicitly); op phi_sp: calculate_pi/calculate_phi on sparse and dense holders vs the Qc models; op mu_model: the executable Coq "
+        "MU model run side by side; data, guess and aliasing of the result observed for purity on every run; stop reason and nInnerIters "
+        "bounds on every ordinary run; non-trivial = data not all zero; distinct = distinct (op,args)")
+CORRESPONDENCE_ONLY = ["Newton / L-BFGS search directions, step lengths and the line-search decisions (oracles of Model/C11Rows.v): proved for "
+                       "every oracle are non-negativity and the bookkeeping (C11_rows_nonneg, C11_rows_inner_bound, C11_proj_nonneg); the tie of the PDNR/PQNR "
+                       "state machine to the code is by its consequences on observed runs (lengths, signs, stop reason, inner-count bounds), "
+                       "not by a side-by-side run",
                        "logarithm in the objective (math.log recomputation in the harness)",
                        "likelihood improvement over the starting guess: sampled, not proved",
-                       "sparse branch of tt_loglikelihood (gather of factor rows at the stored subscripts): by the objective comparison "
-                       "(the dense branch's pairing is C11_objective_pairing, the sparse Phi is C11_phi_sparse)",
-                       "PDNR/PQNR bookkeeping and purity (data / guess unchanged, result not aliased): observed on every run"]
+                       "purity (data / guess unchanged, result not aliased): observed on every run"]
 ASSUMPTIONS = ["model entries converted exactly float -> rational (signs are exact)",
                "objective compared at 1e-9 relative; -inf objectives (a positive count where the model is exactly 0) must agree as -inf; "
                "+inf / nan objectives are failures",
-               "runs that abort with the known C11-F1 assertion are skipped in ops pqnr_result / overspec (reported by pqnr_completes)",
-               "theorems over an abstract ordered commutative ring given by Section hypotheses; division, Newton and L-BFGS steps are oracles"]
+               "runs that abort with the known C11-F1 assertion are skipped in ops pqnr_result / overspec / rerun / sp_degenerate (reported by pqnr_completes)",
+               "theorems over an abstract ordered commutative ring given by Section hypotheses; division, Newton and L-BFGS steps are oracles",
+               "maxiters >= 1 and maxinneriters >= 1 (with 0 the Python loops leave their index variables unbound; not covered by the property text)"]
 EXPLANATION = ("op mu_model ties the model the theorems are about to the code: its final state denotes the returned tensor and its "
                "KKT trace equals the reported one at 1e-9. C11_mu_nonneg: executable model of the MU sweep keeps weights/factors non-negative for any division oracle that maps "
-               "non-negative inputs to non-negative outputs; C11_proj_nonneg: the projected step is non-negative for every direction; "
+               "non-negative inputs to non-negative outputs; C11_rows_nonneg: the PDNR/PQNR outer-loop state machine keeps them non-negative for every "
+               "gradient / direction / step / fallback oracle and keeps one KKT and one inner-count entry per outer iteration, stopping early only when converged; "
+               "C11_rows_inner_bound: every inner-count entry <= (sum of mode sizes) * (max(maxinneriters, 2) - 1); "
+               "C11_proj_nonneg: the projected step is non-negative for every direction; "
                "C11_mass_identity / _factor0 / _factor0_dead: sum of all model entries = sum(factor_0) after the final normalisation, also with "
                "dead components; C11_objective_pairing: the dense double loop over to_tenmat([1]) of data and model = the sum over all "
-               "subscripts; C11_phi_sparse: sparse Pi/Phi = the dense definition on den_sp; C11_bookkeeping: "
-               "KKT list length = iterations performed <= maxiters, entries >= 0.")
+               "subscripts; C11_loglik_sparse_terms / C11_loglik_sparse: the sparse branch of tt_loglikelihood (gather at the stored subscripts) = the "
+               "log-likelihood by definition on the denoted tensor (op ll_sp checks the model's row sums exactly against a direct call); "
+               "C11_phi_sparse: sparse Pi/Phi = the dense definition on den_sp; C11_bookkeeping: KKT list length = iterations performed <= maxiters, entries >= 0.")
 
 
 # ---------------------------------------------------------------- generators
@@ -64,6 +75,12 @@ def _counts(rng, shp, kind):
         m = rng.randrange(len(shp))
         j = rng.randrange(shp[m])
         data = [0 if s[m] == j else v for s, v in zip(subs, data)]
+    elif kind == "multi_empty":          # one entirely-zero slice in each of >= 2 modes (all modes with prob. 1/2)
+        modes = [m for m in range(len(shp)) if shp[m] > 1]
+        rng.shuffle(modes)
+        for m in modes[:(len(modes) if rng.random() < 0.5 else 2)]:
+            j = rng.randrange(shp[m])
+            data = [0 if s[m] == j else v for s, v in zip(subs, data)]
     elif kind == "zero_fibres":
         m = rng.randrange(len(shp))
         rest = {tuple(s[:m] + s[m + 1:]) for s in subs}
@@ -71,6 +88,8 @@ def _counts(rng, shp, kind):
         data = [0 if tuple(s[:m] + s[m + 1:]) in kill else v for s, v in zip(subs, data)]
     elif kind == "full":
         data = [rng.randint(1, 4) for _ in range(n)]
+    elif kind == "all_zero":
+        return [0] * n
     if not any(data):
         data[rng.randrange(n)] = 2
     return data
@@ -85,9 +104,26 @@ def _options(rng, alg):
     return {"maxinneriters": rng.choice([1, 3, 10]), "precompinds": rng.random() < 0.5, "lbfgsMem": rng.choice([1, 3])}
 
 
+def _corner_options(rng, alg):
+    """option corners that change control flow: one inner iteration, kappa fix-up never / always firing, damping and memory extremes"""
+    if alg == "mu":
+        return {"maxinneriters": rng.choice([1, 1, 2, 10]), "kappa": rng.choice([0.0, 0.01, 1.0]),
+                "kappatol": rng.choice([0.0, 1e-10, 0.5, 10.0])}
+    if alg == "pdnr":
+        return {"maxinneriters": rng.choice([1, 1, 2, 10]), "precompinds": rng.random() < 0.5, "inexact": rng.random() < 0.5,
+                "mu0": rng.choice([1e-5, 1.0, 1e3]), "epsActive": rng.choice([1e-8, 1e-1])}
+    return {"maxinneriters": rng.choice([1, 1, 2, 10]), "precompinds": rng.random() < 0.5, "lbfgsMem": rng.choice([1, 2, 5]),
+            "epsActive": rng.choice([1e-8, 1e-1])}
+
+
+def _rand_guess(rng, shp, rank, lo=1, hi=3):
+    return [[[rng.randint(lo, hi) for _ in range(rank)] for _ in range(d)] for d in shp]
+
+
 def gen_cases(rng, tier):
     big = tier == "thorough"
     cases = []
+    cases += _gen_w3(rng, big)
     for shp in (SHAPES_T if big else SHAPES_Q):
         for kind in ("random", "empty_slice", "zero_fibres", "full"):
             for alg in ("mu", "pdnr", "pqnr"):
@@ -189,6 +225,92 @@ def gen_cases(rng, tier):
     return cases
 
 
+def _gen_w3(rng, big):
+    """wave 3: degenerate sparse holders, several emptied slices, option / print corners, memory layouts of the guess, re-runs"""
+    cases = []
+    # (1) corners of the ordinary runs
+    for rep in range(72 if big else 30):
+        shp = rng.choice([(3, 2), (2, 2, 2), (2, 3), (3, 2, 2), (1, 3, 2), (3, 1), (2, 2, 1, 2)])
+        alg = ("mu", "pdnr", "pqnr")[rep % 3]
+        kind = rng.choice(["multi_empty", "multi_empty", "random", "empty_slice", "all_zero"])
+        data = _counts(rng, shp, kind)
+        rank = rng.randint(1, 3)
+        guess = _rand_guess(rng, shp, rank, 1, 4)
+        if rng.random() < 0.25:
+            m = rng.randrange(len(shp))
+            guess[m][rng.randrange(shp[m])] = [0] * rank
+        a = {"shape": list(shp), "data": data, "sparse": rng.random() < 0.5, "rank": rank,
+             "gw": [rng.randint(1, 5) for _ in range(rank)], "wden": rng.choice([1, 4, 4]), "gf": guess, "gden": rng.choice([1, 1, 8]),
+             "alg": alg, "maxiters": rng.choice([1, 1, 2, 3]), "opts": _corner_options(rng, alg),
+             "layout": rng.choice(["F", "C", "view", "mixed"]), "xlayout": rng.choice(["F", "C"]),
+             "print": rng.choice([[0, 0], [1, 1], [2, 3], [1, 0], [0, 1], [1, 2]]),
+             "order": rng.choice(["sorted", "reversed", "random"]), "sseed": rng.randrange(10 ** 6)}
+        if alg == "pqnr":
+            cases.append(Case("pqnr_completes", a, any(data)))
+            cases.append(Case("pqnr_result", a, any(data)))
+        else:
+            cases.append(Case("cp_apr", a, any(data)))
+    # (2) sparse holders with no stored entry / exactly one / explicitly stored zeros (plain constructor, or arising from S + T - T)
+    for rep in range(54 if big else 24):
+        shp = rng.choice([(3, 2), (2, 2, 2), (2, 3), (3, 2, 2), (1, 3, 2)])
+        fam = ("none", "one", "zeros", "zeros", "all_zero_vals", "one_zero")[rep % 6]
+        allsubs = tgen.all_subs(shp)
+        rng.shuffle(allsubs)
+        if fam == "none":
+            subs, vals = [], []
+        elif fam == "one":
+            subs, vals = [allsubs[0]], [rng.randint(1, 4)]
+        elif fam == "one_zero":
+            subs, vals = [allsubs[0]], [0]
+        else:
+            k = rng.randint(2, len(allsubs))
+            subs = allsubs[:k]
+            vals = [0 if (fam == "all_zero_vals" or rng.random() < 0.4) else rng.randint(1, 3) for _ in subs]
+            if fam == "zeros" and 0 not in vals:
+                vals[rng.randrange(k)] = 0
+            if fam == "zeros" and not any(vals):
+                vals[0] = 2
+        if rng.random() < 0.5:
+            pairs = sorted(zip(subs, vals), key=lambda e: e[0][::-1])
+            subs, vals = [list(e[0]) for e in pairs], [e[1] for e in pairs]
+        data = [0] * len(allsubs)
+        pos = {tuple(sb): k for k, sb in enumerate(tgen.all_subs(shp))}
+        for sb, v in zip(subs, vals):
+            data[pos[tuple(sb)]] = v
+        rank = rng.randint(1, 2)
+        alg = rng.choice(["mu", "mu", "pdnr", "pdnr", "pqnr"])
+        a = {"shape": list(shp), "data": data, "sparse": True, "stored": {"subs": [list(x) for x in subs], "vals": vals},
+             "via": "diff" if (fam in ("none", "one") and rng.random() < 0.5) else "ctor",
+             "rank": rank, "gw": [rng.randint(1, 2) for _ in range(rank)], "gf": _rand_guess(rng, shp, rank), "alg": alg,
+             "maxiters": rng.randint(1, 3), "opts": _options(rng, alg), "order": "sorted", "sseed": 0}
+        cases.append(Case("sp_degenerate", a, any(data)))
+    # (2b) tt_loglikelihood called directly on a sparse holder with an un-normalised model (any stored order; zero rows in the model
+    #      make the truthful value -inf); the model object is normalised in place by the call and observed afterwards
+    for rep in range(30 if big else 12):
+        shp = rng.choice([(3, 2), (2, 2, 2), (2, 3, 2), (1, 3, 2), (4, 3), (2, 2, 1, 2)])
+        data = _counts(rng, shp, rng.choice(["random", "empty_slice", "multi_empty", "zero_fibres"]))
+        rank = rng.randint(1, 3)
+        guess = _rand_guess(rng, shp, rank, 0, 3)
+        if rng.random() < 0.3:
+            m = rng.randrange(len(shp))
+            guess[m][rng.randrange(shp[m])] = [0] * rank
+        cases.append(Case("ll_sp", {"shape": list(shp), "data": data, "rank": rank, "gw": [rng.randint(1, 3) for _ in range(rank)],
+                                    "gf": guess, "gden": rng.choice([1, 2, 5]), "layout": rng.choice(["F", "C", "view"]),
+                                    "order": rng.choice(["sorted", "reversed", "random"]), "sseed": rng.randrange(10 ** 6)}, True))
+    # (3) a second call that starts from the model the first call returned (the object itself), both holders
+    for rep in range(36 if big else 15):
+        shp = rng.choice([(3, 2), (2, 2, 2), (2, 3), (3, 2, 2), (1, 3, 2)])
+        alg = ("mu", "pdnr", "pqnr")[rep % 3]
+        data = _counts(rng, shp, rng.choice(["random", "empty_slice", "multi_empty", "full"]))
+        rank = rng.randint(1, 3)
+        a = {"shape": list(shp), "data": data, "rank": rank, "gw": [rng.randint(1, 3) for _ in range(rank)],
+             "gf": _rand_guess(rng, shp, rank, 1, 4), "alg": alg, "maxiters": rng.choice([1, 2]), "maxiters2": rng.choice([1, 2, 3]),
+             "opts": _options(rng, alg) if rng.random() < 0.5 else _corner_options(rng, alg),
+             "layout": rng.choice(["F", "C", "view"]), "order": rng.choice(["sorted", "random"]), "sseed": rng.randrange(10 ** 6)}
+        cases.append(Case("rerun", a, True))
+    return cases
+
+
 # ---------------------------------------------------------------- running pyttb
 def _model_vals(shape, w, fs):
     out = []
@@ -215,26 +337,65 @@ def _loglik(shape, data, w, fs):
     return f - math.fsum(m), math.fsum(m)
 
 
-def _run(ttb, np, a, maxiters, sparse=None):
+def _mk_data(ttb, np, a, sparse):
+    """the data holder: dense (F- or C-ordered source array) or sparse (plain constructor; a["stored"] = explicit stored
+    subs/vals incl. explicitly stored zeros or no entry at all; a["via"] = "diff": the holder arises from a computation)"""
     import random
-    if (a["sparse"] if sparse is None else sparse):
-        subs, vals = tgen.dense_to_sparse(a["shape"], a["data"], random.Random(a["sseed"]), a["order"])
-        X = tgen.mk_sptensor(ttb, np, a["shape"], subs, vals)
-    else:
-        X = tgen.mk_tensor(ttb, np, a["shape"], a["data"])
+    if sparse:
+        st = a.get("stored")
+        if st is not None:
+            subs, vals = st["subs"], st["vals"]
+        else:
+            subs, vals = tgen.dense_to_sparse(a["shape"], a["data"], random.Random(a["sseed"]), a["order"])
+        if a.get("via") == "diff":           # (S + T) - T : same counts, holder produced by sptensor arithmetic
+            S = tgen.mk_sptensor(ttb, np, a["shape"], subs, vals) if subs else ttb.sptensor(shape=tuple(a["shape"]))
+            T = tgen.mk_sptensor(ttb, np, a["shape"], [[0] * len(a["shape"])], [2.0])
+            return (S + T) - T
+        if not subs:
+            return ttb.sptensor(shape=tuple(a["shape"]))
+        return tgen.mk_sptensor(ttb, np, a["shape"], subs, vals)
+    if a.get("xlayout") == "C":              # tensor built from a C-ordered array, no copy requested
+        import logging
+        logging.disable(logging.WARNING)     # "Selected no copy, but input data isn't F ordered so must copy."
+        try:
+            return ttb.tensor(np.ascontiguousarray(tgen.np_dense(np, a["shape"], a["data"])), tuple(a["shape"]), copy=False)
+        finally:
+            logging.disable(logging.NOTSET)
+    return tgen.mk_tensor(ttb, np, a["shape"], a["data"])
+
+
+def _mk_guess(ttb, np, a):
     d = len(a["shape"])
     gden = float(a.get("gden", 1))
-    init = ttb.ktensor([np.array(a["gf"][n], dtype=float).reshape((a["shape"][n], a["rank"])) / gden for n in range(d)],
-                       np.array(a["gw"], dtype=float), copy=True)
+    wden = float(a.get("wden", 1))
+    fms = [np.array(a["gf"][n], dtype=float).reshape((a["shape"][n], a["rank"])) / gden for n in range(d)]
+    init = ttb.ktensor(fms, np.array(a["gw"], dtype=float) / wden, copy=True)
+    lay = a.get("layout", "F")
+    for n in range(d):                       # a user may assign arrays of any memory layout to K.factor_matrices[n]
+        if lay == "C" or (lay == "mixed" and n % 2 == 0):
+            init.factor_matrices[n] = np.ascontiguousarray(fms[n])
+        elif lay == "view" or (lay == "mixed" and n % 2 == 1):
+            big = np.full((2 * fms[n].shape[0] + 1, 3 * fms[n].shape[1] + 2), 7.0)
+            big[1::2, 2::3] = fms[n]
+            init.factor_matrices[n] = big[1::2, 2::3]      # strided view, neither C- nor F-contiguous (unless 1 x 1)
+    return init
+
+
+def _run(ttb, np, a, maxiters, sparse=None, init=None):
+    X = _mk_data(ttb, np, a, a["sparse"] if sparse is None else sparse)
+    if init is None:
+        init = _mk_guess(ttb, np, a)
     # snapshots of the caller's objects ("data and caller's guess are not modified")
     snap_f = [np.array(U, copy=True) for U in init.factor_matrices]
     snap_w = np.array(init.weights, copy=True)
     snap_x = (np.array(X.subs, copy=True), np.array(X.vals, copy=True)) if isinstance(X, ttb.sptensor) else np.array(X.data, copy=True)
+    pr = a.get("print", [0, 0])
     with contextlib.redirect_stdout(io.StringIO()):
-        M, M0, out = ttb.cp_apr(X, a["rank"], algorithm=a["alg"], maxiters=maxiters, init=init, printitn=0, printinneritn=0,
+        M, M0, out = ttb.cp_apr(X, a["rank"], algorithm=a["alg"], maxiters=maxiters, init=init, printitn=pr[0], printinneritn=pr[1],
                                 stoptol=1e-4, **a["opts"])
     pure = (all(np.array_equal(U, V) for U, V in zip(init.factor_matrices, snap_f)) and np.array_equal(init.weights, snap_w)
-            and M is not init and all(U is not V for U in M.factor_matrices for V in init.factor_matrices))
+            and M is not init and all(U is not V and not np.shares_memory(U, V) for U in M.factor_matrices for V in init.factor_matrices)
+            and not np.shares_memory(M.weights, init.weights))
     if isinstance(X, ttb.sptensor):
         pure = pure and np.array_equal(X.subs, snap_x[0]) and np.array_equal(X.vals, snap_x[1])
     else:
@@ -246,18 +407,25 @@ def _run(ttb, np, a, maxiters, sparse=None):
 
 def _guess_floats(a):
     gden = float(a.get("gden", 1))
-    return [float(x) for x in a["gw"]], [[[float(x) / gden for x in row] for row in U] for U in a["gf"]]
+    wden = float(a.get("wden", 1))
+    return [float(x) / wden for x in a["gw"]], [[[float(x) / gden for x in row] for row in U] for U in a["gf"]]
 
 
-def _obs_result(np, a, M, out):
-    w = [float(x) for x in np.asarray(M.weights).ravel()]
-    fs = [[[float(x) for x in row] for row in np.asarray(U)] for U in M.factor_matrices]
+def _kfloats(np, M):
+    return ([float(x) for x in np.asarray(M.weights).ravel()],
+            [[[float(x) for x in row] for row in np.asarray(U)] for U in M.factor_matrices])
+
+
+def _obs_result(np, a, M, out, guess=None):
+    w, fs = _kfloats(np, M)
     ll, mass = _loglik(a["shape"], a["data"], w, fs)
-    gw, gf = _guess_floats(a)
+    gw, gf = guess if guess is not None else _guess_floats(a)
     ll0, _ = _loglik(a["shape"], a["data"], gw, gf)
     return {"weights": [tgen.exact(x) for x in w], "factors": [[[tgen.exact(x) for x in row] for row in U] for U in fs],
             "obj": tgen.exact(out["obj"]), "ll": tgen.exact(ll), "ll0": tgen.exact(ll0), "mass": tgen.exact(mass),
             "nkkt": len(out["kktViolations"]), "ninner": len(out["nInnerIters"]), "ntimes": len(out["times"]),
+            "kkt": [tgen.exact(x) for x in np.asarray(out["kktViolations"]).ravel()],
+            "inner": [tgen.exact(x) for x in np.asarray(out["nInnerIters"]).ravel()],
             "pure": out["pure"]}
 
 
@@ -284,6 +452,43 @@ def run_impl(c):
             return out
         except Exception as ex:
             return {"exc": type(ex).__name__, "msg": str(ex)[:200]}
+    if c.op == "ll_sp":
+        import importlib
+        apr = importlib.import_module("pyttb.cp_apr")
+        try:
+            S = _mk_data(ttb, np, a, True)
+            K = _mk_guess(ttb, np, a)
+            snap = (np.array(S.subs, copy=True), np.array(S.vals, copy=True))
+            f = apr.tt_loglikelihood(S, K)
+            w, fs = _kfloats(np, K)          # the model as the call left it
+            gw, gf = _guess_floats(a)
+            ll, _ = _loglik(a["shape"], a["data"], gw, gf)
+            return {"f": tgen.exact(f), "weights": [tgen.exact(x) for x in w], "factors": [[[tgen.exact(x) for x in row] for row in U] for U in fs],
+                    "ll": tgen.exact(ll), "pure": bool(np.array_equal(S.subs, snap[0]) and np.array_equal(S.vals, snap[1]))}
+        except Exception as ex:
+            return {"exc": type(ex).__name__, "msg": str(ex)[:200]}
+    if c.op == "rerun":
+        runs = []
+        for sparse in (False, True):
+            M1 = None
+            try:
+                M1, out1 = _run(ttb, np, a, a["maxiters"], sparse)
+                r = _obs_result(np, a, M1, out1)
+            except Exception as ex:
+                r = {"exc": type(ex).__name__, "msg": str(ex)[:200]}
+            r["sparse"], r["maxiters"], r["variant"] = sparse, a["maxiters"], "first call"
+            runs.append(r)
+            if M1 is None:
+                continue
+            try:
+                g = _kfloats(np, M1)
+                M2, out2 = _run(ttb, np, a, a["maxiters2"], sparse, init=M1)       # M1 itself: must come back unchanged
+                r = _obs_result(np, a, M2, out2, guess=g)
+            except Exception as ex:
+                r = {"exc": type(ex).__name__, "msg": str(ex)[:200]}
+            r["sparse"], r["maxiters"], r["variant"] = sparse, a["maxiters2"], "second call, init = model returned by the first"
+            runs.append(r)
+        return {"runs": runs}
     if c.op in MULTI_OPS:
         runs = []
         for sparse in (False, True):
@@ -320,12 +525,32 @@ def _finite(x):
     return not isinstance(x, str)
 
 
-MULTI_OPS = ("overspec", "zero_row")
+MULTI_OPS = ("overspec", "zero_row", "rerun")
 
 
 def _gqsparse(shape, subs, vals):
     from vcheck import gnmat
     return f"(mkSp {gnlist(shape)} {gnmat(subs)} {gqlist(vals)})"
+
+
+def _ll_sp_harness(o, subs, vals):
+    """exact row sums sum_r prod_n A_n[sub_n, r] at the stored subscripts and the exact sum of factor 0 of the observed (normalised)
+    model; then sum_k vals[k] * log(rowsum[k]) - msum with math.log ('-inf' when a positive count meets a zero row sum)"""
+    F = [[[Fraction(x) for x in row] for row in U] for U in o["factors"]]
+    R = len(o["weights"])
+    rows = []
+    for sb in subs:
+        acc = Fraction(0)
+        for r in range(R):
+            p = Fraction(1)
+            for n, x in enumerate(sb):
+                p *= F[n][x][r]
+            acc += p
+        rows.append(acc)
+    msum = sum((x for row in F[0] for x in row), Fraction(0))
+    if any(v != 0 and q <= 0 for v, q in zip(vals, rows)):
+        return rows, msum, "-inf"
+    return rows, msum, tgen.exact(math.fsum(v * math.log(q) for v, q in zip(vals, rows) if v != 0) - float(msum))
 
 
 def _known_f1(o):
@@ -368,6 +593,24 @@ def coq_check(c, o):
         K = f"(mkK {gqlist(a['gw'])} [" + "; ".join(gqmat([[Fraction(x, a['gden']) for x in row] for row in f]) for f in a["gf"]) + "])"
         return (f"phi_sp_ok tol9 {gq(Fraction(1e-10))} {_gqsparse(a['shape'], subs, vals)} {tgen.gqdense(a['shape'], a['data'])} "
                 f"{a['n']} {K} {gqmat(o['sp'])} {gqmat(o['dense'])}")
+    if c.op == "ll_sp":
+        import random
+        if "exc" in o:
+            return "false"
+        flat = list(o["weights"]) + [x for U in o["factors"] for row in U for x in row]
+        if not all(_finite(x) for x in flat):
+            return "false"
+        subs, vals = tgen.dense_to_sparse(a["shape"], a["data"], random.Random(a["sseed"]), a["order"])
+        rows, msum, fh = _ll_sp_harness(o, subs, vals)
+        K = (f"(mkK {gqlist([Fraction(x) for x in a['gw']])} ["
+             + "; ".join(gqmat([[Fraction(x, a['gden']) for x in row] for row in f]) for f in a["gf"]) + "])")
+        e = f"ll_sp_ok tol9 {_gqsparse(a['shape'], subs, vals)} {K} {_gk(o)} {gqlist(rows)} {gq(msum)} && {gbool(o['pure'])}"
+        for x, y in ((o["f"], fh), (fh, o["ll"])):       # reported = harness evaluation of the model's terms = brute force over all subscripts
+            if _finite(x) and _finite(y):
+                e += f" && qclose tol9 {gq(x)} {gq(y)}"
+            elif x != y or x != "-inf":
+                e += " && false"
+        return e
     if c.op in MULTI_OPS:
         parts = []
         for r in o["runs"]:
@@ -380,7 +623,7 @@ def coq_check(c, o):
     if c.op == "pqnr_completes":
         return "false" if "exc" in o else "true"
     if "exc" in o:
-        return None if (c.op == "pqnr_result" and _known_f1(o)) else "false"
+        return None if (a["alg"] == "pqnr" and c.op in ("pqnr_result", "sp_degenerate") and _known_f1(o)) else "false"
     flat = list(o["weights"]) + [x for U in o["factors"] for row in U for x in row]
     if not all(_finite(x) for x in flat) or not all(_finite(x) for k in o["kkts"] for x in k) or not _finite(o["mass"]):
         return "false"
@@ -399,6 +642,36 @@ def coq_check(c, o):
     kk = gqlist(o["kkts"][a["maxiters"] - 1])
     e += (f" && kkt_ok {k1} 1 && kkt_ok {k2} 2 && kkt_ok {k3} 3 && is_prefix tol9 {k1} {k2} && is_prefix tol9 {k2} {k3}"
           f" && Nat.eqb {o['nkkt']} (length {kk}) && Nat.eqb {o['ninner']} {o['nkkt']} && Nat.eqb {o['ntimes']} {o['nkkt']}")
+    e += _e_bookkeeping(a, o)
+    return e
+
+
+def _inner_bounds(a, nit):
+    """bounds on nInnerIters[it] that the loop structure implies (Model/C11Apr.v inner/outer; Model/C11Rows.v row_loop_spec /
+    rows_fold_spec): MU counts inner iterations (between N and N * maxinneriters); PDNR / PQNR add the LAST inner index of every row
+    solved (<= innermax - 1 per row, innermax = 2 in outer iteration 1 of PDNR-inexact)"""
+    N, rows = len(a["shape"]), sum(a["shape"])
+    mi = a["opts"].get("maxinneriters", 10)
+    out = []
+    for it in range(nit):
+        if a["alg"] == "mu":
+            out.append((N, N * mi))
+        else:
+            im = 2 if (a["alg"] == "pdnr" and a["opts"].get("inexact", True) and it == 1) else mi
+            out.append((0, rows * (im - 1)))
+    return out
+
+
+def _e_bookkeeping(a, o):
+    """stop reason and inner-iteration counts: fewer than maxiters outer iterations only after convergence (then the last KKT
+    violation is below stoptol = 1e-4); inner counts within the structural bounds"""
+    e = ""
+    if not all(_finite(x) for x in o["kkt"]) or not all(_finite(x) for x in o["inner"]):
+        return " && false"
+    if o["kkt"]:
+        e += f" && (negb (Nat.ltb {len(o['kkt'])} {a['maxiters']}) || qlt {gq(o['kkt'][-1])} {gq(Fraction(1e-4))})"
+    for x, (lo, hi) in zip(o["inner"], _inner_bounds(a, len(o["inner"]))):
+        e += f" && qleb {gq(Fraction(lo))} {gq(x)} && qleb {gq(x)} {gq(Fraction(hi))}"
     return e
 
 
@@ -413,6 +686,16 @@ def oracle(c, o):
                for rs, rd in zip(sp, de) for x, y in zip(rs, rd)):
             return "Phi computed from the sparse holder differs from Phi computed from the dense holder of the same counts"
         return None
+    if c.op == "ll_sp":
+        if "exc" in o:
+            return f"tt_loglikelihood on a sparse holder raised {o['exc']}: {o.get('msg')}"
+        if _finite(o["f"]) != _finite(o["ll"]) or (not _finite(o["f"]) and o["f"] != o["ll"]) or \
+                (_finite(o["f"]) and abs(float(o["f"]) - float(o["ll"])) > 1e-8 * max(1.0, abs(float(o["ll"])))):
+            return (f"tt_loglikelihood(sparse data, model) = {o['f'] if not _finite(o['f']) else float(o['f'])} but the Poisson "
+                    f"log-likelihood summed over all subscripts is {o['ll'] if not _finite(o['ll']) else float(o['ll'])}")
+        if not o["pure"]:
+            return "tt_loglikelihood modified the data"
+        return None
     if c.op in MULTI_OPS:
         for r in o["runs"]:
             if "exc" in r and a["alg"] == "pqnr" and _known_f1(r):
@@ -421,6 +704,8 @@ def oracle(c, o):
             if w:
                 return f"{'sparse' if r['sparse'] else 'dense'} data, maxiters={r['maxiters']} {r.get('variant') or ''}: {w}"
         return None
+    if c.op != "pqnr_completes" and "exc" in o and a["alg"] == "pqnr" and _known_f1(o):
+        return None                      # C11-F1 is reported by op pqnr_completes only
     return _oracle_run(a, o)
 
 
@@ -441,6 +726,15 @@ def _oracle_run(a, o, check_kkts=True):
         return f"result (log-likelihood {o['ll']}) is less likely than the starting guess ({float(o['ll0'])})"
     if not o.get("pure", True):
         return "cp_apr modified the data or the caller's starting guess (or returned an alias of it)"
+    if "kkt" in o and "inner" in o and all(_finite(x) for x in o["kkt"]) and all(_finite(x) for x in o["inner"]):
+        mi_run = o.get("maxiters", a.get("maxiters"))
+        if mi_run is not None and o["kkt"] and len(o["kkt"]) < mi_run and not float(o["kkt"][-1]) < 1e-4:
+            return (f"stopped after {len(o['kkt'])} of {mi_run} outer iterations although the last KKT violation "
+                    f"{float(o['kkt'][-1])} is not below stoptol")
+        if check_kkts:
+            for it, (x, (lo, hi)) in enumerate(zip(o["inner"], _inner_bounds(a, len(o["inner"])))):
+                if not lo <= float(x) <= hi:
+                    return f"nInnerIters[{it}] = {float(x)} outside the bounds [{lo}, {hi}] the loop structure allows"
     if not check_kkts:
         return None
     for mi, k in enumerate(o["kkts"], 1):
@@ -452,7 +746,30 @@ def _oracle_run(a, o, check_kkts=True):
 
 
 # ---------------------------------------------------------------- known findings
-TRIGGERS = {"pqnr_any_input": lambda c: c.op == "pqnr_completes"}
+def _trig_no_entry(c):
+    """the data holder is a sparse tensor without any stored entry (constructed empty, or all counts cancelled in a computation)"""
+    a = c.args
+    if c.op not in ("cp_apr", "pqnr_result", "sp_degenerate") or not a.get("sparse"):
+        return False
+    st = a.get("stored")
+    return (len(st["subs"]) == 0) if st is not None else not any(a["data"])
+
+
+def _trig_explicit_zero(c):
+    """the sparse holder stores an explicit zero (plain constructor)"""
+    st = c.args.get("stored")
+    return c.op == "sp_degenerate" and st is not None and c.args.get("via") != "diff" and 0 in st["vals"]
+
+
+def _trig_big_kappa(c):
+    """MU with a slackness offset kappa >= 1 applied below a tolerance kappatol >= 0.5, more than one outer iteration in total"""
+    a = c.args
+    return (c.op in ("cp_apr", "rerun") and a.get("alg") == "mu" and a["opts"].get("kappa", 0.01) >= 1.0
+            and a["opts"].get("kappatol", 1e-10) >= 0.5 and (c.op == "rerun" or a["maxiters"] >= 2))
+
+
+TRIGGERS = {"pqnr_any_input": lambda c: c.op == "pqnr_completes", "sparse_no_entry": _trig_no_entry,
+            "sparse_explicit_zero": _trig_explicit_zero, "mu_big_kappa": _trig_big_kappa}
 
 
 def _wit_f1():
@@ -468,4 +785,53 @@ def _wit_f1():
     return None
 
 
-WITNESSES = {"C11-F1": _wit_f1}
+def _wit_guess():
+    import numpy as np
+    import pyttb as ttb
+    return ttb.ktensor([np.array([[1.0, 2.0], [3.0, 1.0], [2.0, 2.0]]), np.array([[1.0, 1.0], [2.0, 3.0]])], np.array([1.0, 2.0]))
+
+
+def _wit_f2():
+    import pyttb as ttb
+    bad = []
+    for alg in ("mu", "pdnr"):
+        try:
+            with contextlib.redirect_stdout(io.StringIO()):
+                ttb.cp_apr(ttb.sptensor(shape=(3, 2)), 2, algorithm=alg, maxiters=1, init=_wit_guess(), printitn=0)
+        except Exception as ex:
+            bad.append(f"{alg}: {type(ex).__name__}: {ex}")
+    return ("cp_apr on a 3x2 sptensor without stored entries (all counts zero) raises " + "; ".join(bad)) if bad else None
+
+
+def _wit_f3():
+    import numpy as np
+    import pyttb as ttb
+    S = ttb.sptensor(np.array([[1, 0], [0, 1], [2, 1]]), np.array([[3.0], [0.0], [1.0]]), (3, 2))
+    with contextlib.redirect_stdout(io.StringIO()):
+        M, _, out = ttb.cp_apr(S, 2, algorithm="mu", maxiters=2, init=_wit_guess(), printitn=0)
+    if out["obj"] != out["obj"]:
+        return ("cp_apr(mu) on a 3x2 sptensor with an explicitly stored zero at (0,1) reports objective nan "
+                "(the returned model is 0 there: 0 * log 0); the log-likelihood of the returned model is finite (-0.7042...)")
+    return None
+
+
+_F4_ARGS = {"shape": [2, 3], "data": [3, 3, 0, 3, 0, 0], "rank": 2, "gw": [1, 2], "gf": [[[3, 4], [3, 1]], [[4, 4], [3, 4], [3, 3]]],
+            "alg": "mu", "opts": {"maxinneriters": 2, "kappa": 1.0, "kappatol": 0.5}, "layout": "F", "order": "sorted", "sseed": 0}
+
+
+def _wit_f4():
+    import numpy as np
+    import pyttb as ttb
+    a = _F4_ARGS
+    M1, _ = _run(ttb, np, a, 2, False)
+    g = _kfloats(np, M1)
+    M2, _ = _run(ttb, np, a, 3, False, init=M1)
+    ll1, _ = _loglik(a["shape"], a["data"], *g)
+    ll2, _ = _loglik(a["shape"], a["data"], *_kfloats(np, M2))
+    if ll2 < ll1 - 1e-6 * max(1.0, abs(ll1)):
+        return (f"cp_apr(mu, kappa=1.0, kappatol=0.5, maxiters=3) started from a model with log-likelihood {ll1:.6f} returns a model with "
+                f"log-likelihood {ll2:.6f}")
+    return None
+
+
+WITNESSES = {"C11-F1": _wit_f1, "C11-F2": _wit_f2, "C11-F3": _wit_f3, "C11-F4": _wit_f4}
